@@ -81,6 +81,14 @@ inline int last_network_error() {
 }
 #endif
 
+// A session socket may be shut down by another thread (session replacement, teardown) while a sender
+// still holds it; the send must then fail with an error, not raise SIGPIPE in the hosting process.
+#if defined(MSG_NOSIGNAL)
+constexpr int kSendFlags = MSG_NOSIGNAL;
+#else
+constexpr int kSendFlags = 0;
+#endif
+
 constexpr std::size_t kPeerIdSize = sizeof(ephemeralnet::PeerId);
 constexpr std::size_t kNonceSize = sizeof(ephemeralnet::crypto::Nonce::bytes);
 constexpr std::size_t kLengthFieldSize = sizeof(std::uint32_t);
@@ -1061,7 +1069,7 @@ bool SessionManager::send_all(SocketHandle handle, const std::uint8_t* data, std
 #ifdef _WIN32
         const auto sent = ::send(socket, reinterpret_cast<const char*>(data + sent_total), static_cast<int>(length - sent_total), 0);
 #else
-        const auto sent = ::send(socket, reinterpret_cast<const char*>(data + sent_total), length - sent_total, 0);
+        const auto sent = ::send(socket, reinterpret_cast<const char*>(data + sent_total), length - sent_total, kSendFlags);
 #endif
         if (sent <= 0) {
             return false;
